@@ -273,6 +273,7 @@ CHECKS["C16"] = {
         {"engine": "P", "pkg": "internal/upstream", "tests": [
             {"run": "TestVfC16Fallback", "quick": 2000, "thorough": 187500, "timeout_thorough": 3000, "shards_quick": 8, "shards_thorough": 16},
             {"run": "TestVfC16TcpSideComesBack", "quick": 160, "thorough": 16000, "timeout_thorough": 3000, "shards_quick": 8, "shards_thorough": 16},
+            {"run": "TestVfC16Burst", "quick": 120, "thorough": 8000, "timeout_thorough": 3000, "shards_quick": 8, "shards_thorough": 16},
         ]},
     ],
     "assumptions": ["the upstream is created with NewUpstream(\"udp://127.0.0.1:port\") as the router does"],
@@ -361,6 +362,9 @@ CHECKS["C04"] = {
         {"engine": "E", "proxy": ["plain", "race"], "tests": [
             {"run": "TestVfC04Mixups", "quick": 6, "thorough": 400, "shards_quick": 6, "shards_thorough": 8, "timeout_quick": 900, "timeout_thorough": 3500, "shrinktime": "90s"},
             {"run": "TestVfC04SharedConn", "quick": 2000, "thorough": 400000, "shards_quick": 4, "shards_thorough": 16, "timeout_thorough": 3400},
+            # the same workload with failing upstream legs, clients that hang up and cancelled exchanges (C20's registration of
+            # it has more cases): the keyed-answer oracle is this property's, and error paths are where objects get shared
+            {"run": "TestVfC20Workload", "quick": 2, "thorough": 48, "shards_quick": 2, "shards_thorough": 8, "timeout_quick": 900, "timeout_thorough": 3500, "shrinktime": "90s"},
         ]},
     ],
     "assumptions": ["fake upstream answers are a keyed function of the question only, so cached and fresh answers coincide"],
@@ -415,6 +419,9 @@ CHECKS["C14"] = {
         {"engine": "P", "pkg": "internal/upstream/transport", "tests": [
             # also part of C05: here for its "exchanges keep succeeding while a connection that ran out of wire IDs waits for its last replies" oracle
             {"run": "TestVfC05Rollover", "quick": 4, "thorough": 160, "shards_quick": 4, "shards_thorough": 16, "timeout_thorough": 3000},
+            # also part of C06: here for the pooled connection that is stale silently (open, takes the query, never answers) - the
+            # time-out on it is a failure of a reused connection, and the retry on a new one is answered at once
+            {"run": "TestVfC06RespTimeout", "quick": 16, "thorough": 320, "shards_quick": 16, "shards_thorough": 16, "shrinktime": "30s"},
         ]},
         {"engine": "P", "pkg": "internal/upstream", "tests": [
             {"run": "TestVfC14Faults", "quick": 320, "thorough": 37890, "shards_quick": 16, "shards_thorough": 16, "timeout_thorough": 3400},
@@ -436,6 +443,11 @@ CHECKS["C18"] = {
     "level_note": "The 8 s bound at router level is the 6 s request deadline (which the fasthttp listener's graceful shutdown may wait out) plus 2 s.",
     "technique": "property-based testing (rapid): generated close schedules against counting fake servers under -race, socket-inode invariant; generated failing configurations against the real binary",
     "parts": [
+        # Close() against exchanges that are emptying a pool of dead connections (map iteration vs deletion shows as a
+        # race report or a fatal error of the runtime)
+        {"engine": "P", "pkg": "internal/upstream/transport", "race": True, "tests": [
+            {"run": "TestVfC18CloseVsDeadPool", "quick": 160, "thorough": 16000, "shards_quick": 8, "shards_thorough": 16, "timeout_thorough": 3000, "shrinktime": "10s"},
+        ]},
         {"engine": "P", "pkg": "internal/upstream", "race": True, "tests": [
             {"run": "TestVfC18UpstreamClose", "quick": 240, "thorough": 66670, "shards_quick": 8, "shards_thorough": 16, "timeout_thorough": 3400, "shrinktime": "10s"},
         ]},
